@@ -349,7 +349,20 @@ def static_features(prog):
     """program-level facts read off the spec-published tree (used for compile-time rejections, which have no call)"""
     f = {"literal_unpack_length_mismatch": False, "literal_tuple_const_index_out_of_range": False,
          "literal_unpack_trailing_star_gets_nothing": False, "class_body_comprehension_with_closure_over_its_variable": False,
-         "genexpr_walrus_to_global_and_inner_global_decl": False}
+         "genexpr_walrus_to_global_and_inner_global_decl": False, "subscript_of_variable_iterating_range": False}
+    for n in walk(prog):
+        # a loop / comprehension variable that iterates over range(..) is subscripted
+        if n["t"] == "comp" and n["a"][1]["t"] == "call" and n["a"][1]["a"][0]["t"] == "name" and n["a"][1]["a"][0]["s"] == "range":
+            var = n["p"][0]
+            parts = [n["a"][0], n["a"][2]]
+        elif n["t"] == "for" and n["a"][1]["t"] == "call" and n["a"][1]["a"][0]["t"] == "name" and n["a"][1]["a"][0]["s"] == "range":
+            var = n["a"][0]["s"]
+            parts = [n["a"][2]]
+        else:
+            continue
+        for part in parts:
+            if any(x["t"] == "sub" and x["a"][0]["t"] == "name" and x["a"][0]["s"] == var for x in walk(part)):
+                f["subscript_of_variable_iterating_range"] = True
     # f declares `global g`: a := to g inside a generator expression of f, plus an inner def that declares `global g` too
     body = prog["a"][0]["a"]
     inner_global = any(st["t"] == "def" and st["w"] and st["w"][0] == "global" for st in body)
